@@ -122,6 +122,18 @@ Theorem origin_reported : forall o i v og,
 Proof. exact origin_text_l. Qed.
 Print Assumptions origin_reported.
 
+(* incl_ws=True puts the sheet name (quoted when it contains a space) and one space in front of
+   exactly what is reported without it; the exceptions are the same *)
+Theorem origin_reported_ws : forall o title attr key strict,
+  get_attr_origin_ws o title attr key false strict = get_attr_origin o attr key strict /\
+  get_attr_origin_ws o title attr key true strict =
+  match get_attr_origin o attr key strict with
+  | Ok s => Ok (ws_name title ++ [32%Z] ++ s)
+  | Err e => Err e
+  end.
+Proof. intros. unfold get_attr_origin_ws. destruct (get_attr_origin o attr key strict); split; reflexivity. Qed.
+Print Assumptions origin_reported_ws.
+
 (* for a CellRangeDict attribute: the cell reported for key k is the cell whose conversion is the
    value stored under k *)
 Theorem range_key_consistent : forall cv rn cells dv k r c,
@@ -258,6 +270,64 @@ Theorem ladder_origins :
   (forall y, cell_at sh (S t + j) c = Some y -> val_empty y = false -> r = (S t + j)%nat).
 Proof. exact ladder_origins_l. Qed.
 Print Assumptions ladder_origins.
+
+(* ---------------------------------------------------------------------------------------- *)
+(* The ladder theorems for a reader with several rule sets, directly on the tuples:
+   [out_sim_m a b]: the same values, tuple by tuple and item by item, and the same exception;
+   [plain_m mc]: the same rule sets read with ladder_format = False. *)
+Theorem ladder_equiv_multi : forall mc sh w,
+  Forall (fun vs => length vs = w) sh -> mc_ladder mc = true ->
+  (stop_first (mc_loop mc) = false \/ first_some_pos (sheet_titles sh) 0 <> Some 0%nat) ->
+  out_sim_m (read_table_m mc sh) (read_table_m (plain_m mc) (fill_sheet sh)).
+Proof. exact ladder_equiv_m_gen. Qed.
+Print Assumptions ladder_equiv_multi.
+
+Theorem ladder_prefix_multi : forall mc sh w,
+  Forall (fun vs => length vs = w) sh -> mc_ladder mc = true ->
+  exists rest,
+    map tuple_vals (fst (read_table_m (plain_m mc) (fill_sheet sh))) =
+    map tuple_vals (fst (read_table_m mc sh)) ++ rest /\
+    ((rest = [] /\ snd (read_table_m mc sh) = snd (read_table_m (plain_m mc) (fill_sheet sh))) \/
+     (stop_first (mc_loop mc) = true /\ first_some_pos (sheet_titles sh) 0 = Some 0%nat /\
+      snd (read_table_m mc sh) = None)).
+Proof. exact ladder_prefix_m_l. Qed.
+Print Assumptions ladder_prefix_multi.
+
+Theorem ladder_origins_multi :
+  forall mc sh w items e t tvs j tup k ob o i v og r c,
+  Forall (fun vs => length vs = w) sh -> mc_ladder mc = true ->
+  read_table_m mc sh = (items, e) -> title_row sh = Some (t, tvs) ->
+  nth_error items j = Some tup ->
+  nth_error (mc_objs mc) k = Some ob -> nth_error tup k = Some (Some o) ->
+  nth_error (o_attrs o) i = Some (v, og) ->
+  (og = OCell r c \/ exists d key, og = ORange d /\ assoc_get key d = Some (r, c)) ->
+  (S t <= r <= S t + j)%nat /\
+  (exists x, cell_at sh r c = Some x /\ cell_at (fill_sheet sh) (S t + j) c = Some x) /\
+  (forall y, cell_at sh (S t + j) c = Some y -> val_empty y = false -> r = (S t + j)%nat).
+Proof. exact ladder_origins_m_l. Qed.
+Print Assumptions ladder_origins_multi.
+
+(* non-vacuity: a ladder table with three object classes per row *)
+Definition ex3_sheet : list (list cval) :=
+  [ [CStr [89]; CStr [77]; CStr [68]; CStr [117]; CStr [87]];            (* Y M D u W *)
+    [CInt 2019; CInt 11; CInt 1; CInt 5; CStr [97]];
+    [CNone; CInt 12; CInt 2; CInt 6; CNone];
+    [CNone; CNone; CInt 3; CInt 7; CStr [98]] ].
+Definition ex3_mc : mconfig :=
+  mkMConfig [ ([RPlain [89] ex2_int None; RPlain [77] ex2_int None], 2%nat);
+              ([RPlain [68] ex2_int None; RRange true ex2_int false], 1%nat);
+              ([RPlain [87] (mkConv KStr None None None) None; RPlain [77] ex2_int None], 1%nat) ] [] true.
+Example ex_three_objects_ladder :
+  map (map (option_map (fun o => map (fun a => origin_text (snd a)) (o_attrs o)))) (fst (read_table_m ex3_mc ex3_sheet)) =
+  [ [ Some [coord_text 1 0; coord_text 1 1]; Some [coord_text 1 2; coord_text 1 3]; Some [coord_text 1 4; coord_text 1 1] ];
+    [ Some [coord_text 1 0; coord_text 2 1]; Some [coord_text 2 2; coord_text 2 3]; None ];
+    [ Some [coord_text 1 0; coord_text 2 1]; Some [coord_text 3 2; coord_text 3 3]; Some [coord_text 3 4; coord_text 2 1] ] ] /\
+  snd (read_table_m ex3_mc ex3_sheet) = None /\
+  map tuple_vals (fst (read_table_m ex3_mc ex3_sheet)) =
+  map tuple_vals (fst (read_table_m (plain_m ex3_mc) (fill_sheet ex3_sheet))) /\
+  Forall (fun vs => length vs = 5%nat) ex3_sheet /\ mc_ladder ex3_mc = true /\ stop_first (mc_loop ex3_mc) = false.
+Proof. vm_compute. repeat split; repeat constructor. Qed.
+Print Assumptions ex_three_objects_ladder.
 
 (* ---------------------------------------------------------------------------------------- *)
 (* range_detect (full).  The column names of a ranged attribute ([range_scan known names false],
@@ -407,6 +477,14 @@ Theorem session_local : forall ops r s,
       end.
 Proof. exact session_local_lemma. Qed.
 Print Assumptions session_local.
+
+(* a reading of several object classes followed by the caller's edits (cases ReadM of Run.v, which
+   read the table once) is the session [OReadM; OMut ...] *)
+Theorem multi_reading_session : forall mc rows qkeys muts,
+  multi_final mc rows qkeys muts =
+  (length (fst (read_table_m mc rows)), run_session (multi_ops mc rows qkeys muts)).
+Proof. exact multi_final_spec. Qed.
+Print Assumptions multi_reading_session.
 
 (* without edits a session is the list of its readings, each on its own *)
 Theorem session_no_edits : forall ops,
